@@ -181,6 +181,10 @@ def rules(rep, facts):
     order_ops(rep, R1, facts)
     r2_inplace(rep, facts)
     r3_conversions(rep, facts)
+    R6 = rep.rule('C08/R6', 'sorting touches what the API documents: each of the four sort functions sorts its own entries once, recurses only into dotted '
+                  'children (sub-tables with their own header keep their order), through the same function and with the same comparison', floor=8)
+    from .shared import sort_recursion
+    sort_recursion(rep, R6, facts)
     feats = set(facts.crates['toml_edit'].get('features', []))
     if 'display' in feats:
         r4_placement(rep, facts)
